@@ -135,10 +135,11 @@ def uniformity(ax):
     return None
 
 
-def locate(ax, v):
+def locate(ax, v, b=None):
     """Brute-force cell index of ``v``: the last cell whose left boundary is
     <= v (so interior boundaries belong to the right cell), capped at n-1."""
-    b = boundaries(ax)
+    if b is None:
+        b = boundaries(ax)
     if not (b[0] <= v <= b[-1]):
         raise Invalid('point outside the interval')
     idx = 0
@@ -148,10 +149,11 @@ def locate(ax, v):
     return idx
 
 
-def floating_index(ax, v):
+def floating_index(ax, v, b=None):
     """Reference for ``index(v, floating=True)`` and its tolerance."""
-    b = boundaries(ax)
-    i = locate(ax, v)
+    if b is None:
+        b = boundaries(ax)
+    i = locate(ax, v, b)
     # on a boundary the result is the boundary number itself
     for k in range(ax.n + 1):
         if b[k] == v:
@@ -163,9 +165,9 @@ def floating_index(ax, v):
     return float(ref), float(tol)
 
 
-def from_floating(ax, f):
+def from_floating(ax, f, b=None):
     """Position described by a floating index (linear in each cell)."""
-    b = boundaries(ax).astype(LD)
+    b = (boundaries(ax) if b is None else b).astype(LD)
     k = int(np.floor(f))
     if k >= ax.n:
         k = ax.n - 1
@@ -175,20 +177,26 @@ def from_floating(ax, f):
 
 
 def probe_values(ax):
-    """Values of the interval worth asking ``index`` about: every boundary,
-    the limits, grid points, cell midpoints, 1 ulp either side of each."""
+    """Values of the interval worth asking ``index`` about, most telling
+    first: every boundary (incl. the limits), 1 ulp either side of each,
+    grid points, cell midpoints, 1 ulp either side of those."""
     b = boundaries(ax)
-    vals = []
-    for x in list(b) + list(ax.c) + list((b[1:] + b[:-1]) / 2.0):
-        x = float(x)
-        for y in (x, float(np.nextafter(x, -np.inf)),
-                  float(np.nextafter(x, np.inf))):
-            if ax.lo <= y <= ax.hi:
-                vals.append(y)
-    # keep order, drop duplicates
+    mids = (b[1:] + b[:-1]) / 2.0
+
+    def ulps(xs):
+        out = []
+        for x in xs:
+            out.append(float(np.nextafter(x, -np.inf)))
+            out.append(float(np.nextafter(x, np.inf)))
+        return out
+
+    vals = [float(x) for x in b] + ulps(b) + [float(x) for x in ax.c] + \
+        [float(x) for x in mids] + ulps(ax.c) + ulps(mids)
     seen = set()
     out = []
     for v in vals:
+        if not ax.lo <= v <= ax.hi:
+            continue
         key = np.float64(v).tobytes()
         if key not in seen:
             seen.add(key)
